@@ -356,6 +356,19 @@ func par2GoroutineInvariance(r *Run) {
 		w.Disk.Put(w.Path(0), data)
 		r.Probe("file>=2MiB")
 	}
+	wantStale := t.Bool(1, 5, "stale-volume-and-gap")
+	if wantStale && len(w.Files[0].Data) <= 16384 {
+		// a file longer than 16 KiB: its later bytes can change without
+		// changing the set id (see the stale-volume event below)
+		size := 16385 + t.Draw(8192, "stale-size")
+		data := expandContent(ckRandom, t.Draw64(0, "stale-seed"), size, 64)
+		w.N += (size+w.S-1)/w.S - (len(w.Files[0].Data)+w.S-1)/w.S
+		w.Files[0].Data = data
+		w.Disk.Put(w.Path(0), data)
+	}
+	if wantStale && w.R < 6 {
+		w.R = 6 + t.Draw(12, "stale-R")
+	}
 	// bound the work per run (every kernel call passes a yield point):
 	// at most ~0.6 million (slice, recovery block) pairs
 	if w.N*w.R > 600000 {
@@ -406,8 +419,17 @@ func par2GoroutineInvariance(r *Run) {
 	for i := 0; i < nd; i++ {
 		w.DamageData(r, []string{"delete", "flip", "overwrite", "insert", "truncate", "swap"})
 	}
-	if t.Bool(1, 3, "lose-recovery") {
+	if t.Bool(1, 3, "lose-recovery") || wantStale {
 		w.DeleteRecovery(r)
+	}
+	if wantStale {
+		// recovery blocks of an earlier generation of the same set (same
+		// names, lengths and first 16 KiB) on exponents that are free now:
+		// valid packets whose content does not fit the data - with or
+		// without the double check, every goroutine count must reach the
+		// same verdict and leave the same files
+		w.hostileRecoveryKind(r, "stale-same-setid")
+		r.Probe("stale-volume-beside-gap")
 	}
 	state := w.Disk.Clone()
 	wr := *w
